@@ -6,6 +6,9 @@ import (
 	"encoding/base64"
 	"encoding/json"
 	"fmt"
+	"hash/adler32"
+	"hash/crc32"
+	"hash/fnv"
 	"strconv"
 	"strings"
 
@@ -18,8 +21,9 @@ import (
 // genCtx: which login of which group is being generated (member-specific e-mails, tokens, codes;
 // claims correlated with the provider configuration)
 type genCtx struct {
-	cfg    providerCfg
-	member int
+	cfg         providerCfg
+	member      int
+	forceAccess string // when set: the access token of this login's token answer
 }
 
 var cur genCtx
@@ -255,6 +259,12 @@ func mangle(r *c.Rng, raw []byte) ([]byte, string) {
 	case 4:
 		return []byte(r.Pick([]string{`null`, `[]`, `[{"id_token":"a.b.c","email":"a@b.c"}]`, `"string"`, `42`, `true`, ``, ` `, `{}`, `{"":""}`})), "other-document"
 	case 5:
+		if r.Chance(0.3) {
+			return binaryBody(r)
+		}
+		if r.Chance(0.5) {
+			return longNonJSON(r), "long-html"
+		}
 		return []byte("<html><body>502 Bad Gateway</body></html>"), "html"
 	case 6: // flip one byte
 		if len(raw) > 0 {
@@ -277,7 +287,9 @@ func mangle(r *c.Rng, raw []byte) ([]byte, string) {
 // ---------------------------------------------------------------------------------------------
 // id-tokens
 
-var emailPool = []string{"alice@example.com", "bob@b.com", "Ünï@exämple.com", "a", "x@y", "very.long.local.part+tag@sub.domain.example.org", "q\"uote@e.com", "new\nline@e.com", "🙂@e.com"}
+var longLocal = strings.Repeat("l", 3000)
+
+var emailPool = []string{" ", "\t", "\u212Aelvin@example.com", "dot\u0307@example.com", "zero\u200bwidth@example.com", "a@b@c", "@", "x@\u4f8b\u3048.jp", "x@xn--r8jz45g.jp", "UPPER@EXAMPLE.COM", longLocal + "@example.com", "alice@example.com", "bob@b.com", "Ünï@exämple.com", "a", "x@y", "very.long.local.part+tag@sub.domain.example.org", "q\"uote@e.com", "new\nline@e.com", "🙂@e.com"}
 
 func payloadJSON(r *c.Rng) (string, string) {
 	var f []kv
@@ -517,6 +529,66 @@ func dressAnswer(r *c.Rng, a *answerSpec) string {
 	return strings.Join(note, ",")
 }
 
+// filler: an extra member that brings the body to a given size with multi-byte UTF-8 text, so that
+// whatever cuts the body at a fixed byte offset (a log line, a buffer) most likely cuts inside a rune
+var sizeTargets = []int{255, 256, 512, 1023, 1024, 1025, 2047, 2048, 2049, 2050, 4095, 4096, 4097, 8191, 8192, 16384, 32768, 65535, 65536, 100000}
+
+func filler(r *c.Rng, have int) kv {
+	target := sizeTargets[r.Intn(len(sizeTargets))] + r.Intn(9) - 4
+	ru := r.Pick([]string{"\u00e9", "\u65e5", "\U0001F642", "\u00e9\u65e5\U0001F642", "\u0301"})
+	n := (target - have) / len(ru)
+	if n < 1 {
+		n = 1
+	}
+	lead := strings.Repeat("a", r.Intn(4)) // shifts the phase of the rune boundaries
+	key := r.Pick([]string{"error_description", "message", "debug", "x_pad", "errorSummary"})
+	return kv{key, rv{jv{Kind: "other"}, `"` + lead + strings.Repeat(ru, n) + `"`}}
+}
+
+func longNonJSON(r *c.Rng) []byte {
+	target := sizeTargets[r.Intn(len(sizeTargets))] + r.Intn(9) - 4
+	ru := r.Pick([]string{"\u00e9", "\u65e5", "\U0001F642"})
+	return []byte("<html><body>" + strings.Repeat("a", r.Intn(4)) + strings.Repeat(ru, target/len(ru)) + "</body></html>")
+}
+
+// binaryBody: a body that is not text at all — runs of one byte value from every class a UTF-8
+// decoder distinguishes (ASCII, NUL, continuation bytes, lead bytes of 2/3/4-byte sequences, bytes
+// that are never valid), random bytes, UTF-16, a gzip stream sent without Content-Encoding
+var runBytes = []byte{0x00, 0x0a, 0x7f, 0x80, 0x9f, 0xa0, 0xbf, 0xc0, 0xc3, 0xe2, 0xed, 0xf0, 0xf4, 0xf8, 0xfe, 0xff}
+
+func binaryBody(r *c.Rng) ([]byte, string) {
+	size := sizeTargets[r.Intn(len(sizeTargets))] + r.Intn(9) - 4
+	switch r.Intn(8) {
+	case 0:
+		b := make([]byte, size)
+		r.Read(b)
+		return b, "random-bytes"
+	case 1:
+		b := []byte{0xff, 0xfe}
+		for _, ch := range `{"error":"invalid_grant","error_description":"` + strings.Repeat("x", size/2) + `"}` {
+			b = append(b, byte(ch), 0)
+		}
+		return b, "utf-16le"
+	case 2:
+		b := append([]byte{0x1f, 0x8b, 0x08, 0x00}, make([]byte, size)...)
+		r.Read(b[4:])
+		return b, "gzip-magic"
+	case 3: // a readable start, then a run
+		x := runBytes[r.Intn(len(runBytes))]
+		return append([]byte(`{"error":"`), bytesRepeat(x, size)...), fmt.Sprintf("text-then-run-0x%02x", x)
+	}
+	x := runBytes[r.Intn(len(runBytes))]
+	return bytesRepeat(x, size), fmt.Sprintf("run-0x%02x", x)
+}
+
+func bytesRepeat(x byte, n int) []byte {
+	b := make([]byte, n)
+	for i := range b {
+		b[i] = x
+	}
+	return b
+}
+
 func genTok(r *c.Rng, prov string) (answerSpec, *tokClass, string) {
 	var note []string
 	var access, refresh, expires, idt rv
@@ -535,6 +607,9 @@ func genTok(r *c.Rng, prov string) (answerSpec, *tokClass, string) {
 		note = append(note, "access-control-char")
 	default:
 		access = vStr(r, fmt.Sprintf(r.Pick(accessPool), cur.member))
+		if cur.forceAccess != "" {
+			access = vStr(r, cur.forceAccess)
+		}
 	}
 	switch r.Intn(20) {
 	case 0:
@@ -578,6 +653,10 @@ func genTok(r *c.Rng, prov string) (answerSpec, *tokClass, string) {
 		note = append(note, "id_token:"+tokNote)
 	}
 	fields := []kv{{"access_token", access}, {"refresh_token", refresh}, {"expires_in", expires}, {"id_token", idt}}
+	if r.Chance(0.1) {
+		fields = append(fields, filler(r, 150))
+		note = append(note, "long-body")
+	}
 	raw := renderObject(r, fields)
 	intended := &tokClass{true, access.class, refresh.class, expires.class, idt.class}
 	a := answerSpec{Status: 200, Raw: raw}
@@ -585,6 +664,19 @@ func genTok(r *c.Rng, prov string) (answerSpec, *tokClass, string) {
 	case 0:
 		a.Status = statusPool[r.Intn(len(statusPool))]
 		note = append(note, fmt.Sprintf("status-%d", a.Status))
+		switch r.Intn(6) { // error answers are what gets logged: long ones, multi-byte ones
+		case 0:
+			a.Raw, intended = longNonJSON(r), nil
+			note = append(note, "long-html-body")
+		case 1:
+			a.Raw = renderObject(r, append(append([]kv{}, fields...), filler(r, 150)))
+			note = append(note, "long-body")
+		case 2:
+			var how string
+			a.Raw, how = binaryBody(r)
+			intended = nil
+			note = append(note, "binary-body:"+how)
+		}
 	case 1:
 		a.Transport = 1 + r.Intn(2)
 		note = append(note, fmt.Sprintf("transport-%d", a.Transport))
@@ -644,6 +736,9 @@ func genUI(r *c.Rng, prov string) (answerSpec, *userClass, string) {
 		grps = vStrs(r, []string{})
 	default:
 		grps = vStrs(r, []string{"g1", "", "eng"}[:1+r.Intn(3)])
+		if r.Chance(0.15) {
+			grps = vStrs(r, []string{"mallory@evil.org", "admins@example.com"})
+		}
 	}
 	switch r.Intn(8) {
 	case 0:
@@ -652,9 +747,13 @@ func genUI(r *c.Rng, prov string) (answerSpec, *userClass, string) {
 		uname = vNum(3)
 		note = append(note, "username-illtyped")
 	default:
-		uname = vStr(r, "user-1")
+		uname = vStr(r, r.Pick([]string{"user-1", "user-1", "mallory@evil.org", "MALLORY@EVIL.ORG", " ", "u@", "@", "user-1@example.com"}))
 	}
 	fields := []kv{{"email", email}, {"email_verified", verified}, {"groups", grps}, {"username", uname}}
+	if r.Chance(0.1) {
+		fields = append(fields, filler(r, 150))
+		note = append(note, "long-body")
+	}
 	raw := renderObject(r, fields)
 	intended := &userClass{true, email.class, verified.class, grps.class, uname.class}
 	a := answerSpec{Status: 200, Raw: raw}
@@ -662,6 +761,19 @@ func genUI(r *c.Rng, prov string) (answerSpec, *userClass, string) {
 	case 0:
 		a.Status = statusPool[r.Intn(len(statusPool))]
 		note = append(note, fmt.Sprintf("status-%d", a.Status))
+		switch r.Intn(6) { // error answers are what gets logged: long ones, multi-byte ones
+		case 0:
+			a.Raw, intended = longNonJSON(r), nil
+			note = append(note, "long-html-body")
+		case 1:
+			a.Raw = renderObject(r, append(append([]kv{}, fields...), filler(r, 150)))
+			note = append(note, "long-body")
+		case 2:
+			var how string
+			a.Raw, how = binaryBody(r)
+			intended = nil
+			note = append(note, "binary-body:"+how)
+		}
 	case 1:
 		a.Transport = 1 + r.Intn(2)
 		note = append(note, fmt.Sprintf("transport-%d", a.Transport))
@@ -679,6 +791,50 @@ func genUI(r *c.Rng, prov string) (answerSpec, *userClass, string) {
 	return a, intended, strings.Join(note, ",")
 }
 
+// ---------------------------------------------------------------------------------------------
+// look-alike keys: pairs of distinct codes / access tokens that collide under something a program
+// might key a table, a lock or a coalescing group on (32-bit checksums, case folding, a prefix,
+// trimming, URL decoding, Unicode normalisation). Concurrent logins must still be kept apart.
+
+func collide(h func([]byte) uint32, prefix string) [2]string {
+	seen := map[uint32]string{}
+	for i := 0; ; i++ {
+		s := fmt.Sprintf("%s%07x", prefix, i*2654435761%268435399)
+		k := h([]byte(s))
+		if o, ok := seen[k]; ok && o != s {
+			return [2]string{o, s}
+		}
+		seen[k] = s
+	}
+}
+
+var castagnoli = crc32.MakeTable(crc32.Castagnoli)
+
+func lookalikes(prefix string) [][2]string {
+	fnv1 := func(b []byte) uint32 { h := fnv.New32(); h.Write(b); return h.Sum32() }
+	fnv1a := func(b []byte) uint32 { h := fnv.New32a(); h.Write(b); return h.Sum32() }
+	long := strings.Repeat("k", 80)
+	return [][2]string{
+		collide(crc32.ChecksumIEEE, prefix),
+		collide(func(b []byte) uint32 { return crc32.Checksum(b, castagnoli) }, prefix),
+		collide(adler32.Checksum, prefix),
+		collide(fnv1, prefix),
+		collide(fnv1a, prefix),
+		{prefix + "AbC", prefix + "abc"},           // equal under case folding
+		{prefix + long + "1", prefix + long + "2"}, // equal in the first 80 bytes
+		{"1" + prefix + long, "2" + prefix + long}, // equal in the last 80 bytes
+		{prefix + "x", prefix + "x "},              // equal after trimming
+		{prefix + "a b", prefix + "a+b"},           // equal after form decoding
+		{prefix + "a%20b", prefix + "a b"},         // equal after URL decoding
+		{prefix + "\u00e9", prefix + "e\u0301"},    // equal after Unicode normalisation
+		{prefix + "\u212a", prefix + "k"},          // equal under Unicode case folding
+		{prefix + "0", prefix + "00"},              // equal as numbers
+	}
+}
+
+var codeLookalikes = lookalikes("code-")
+var tokenLookalikes = lookalikes("at-")
+
 var cfgByType = func() map[string][]int {
 	m := map[string][]int{}
 	for i, p := range cfgPool {
@@ -688,12 +844,20 @@ var cfgByType = func() map[string][]int {
 }()
 
 func genMember(w *world, r *c.Rng, cfg int, member int) scenario {
-	cur = genCtx{cfg: cfgPool[cfg], member: member}
+	return genMemberWith(w, r, cfg, member, "", "")
+}
+
+// genMemberWith: forceCode / forceAccess fix the code presented and the access token issued
+func genMemberWith(w *world, r *c.Rng, cfg int, member int, forceCode, forceAccess string) scenario {
+	cur = genCtx{cfg: cfgPool[cfg], member: member, forceAccess: forceAccess}
 	prov := cfgPool[cfg].Type
 	var sc scenario
 	sc.Code = r.Pick([]string{"code", "4/0AX4Xf-abc", "a b&c=d", "code", "code", "code", "code", "code"}) + fmt.Sprintf("-m%d", member)
 	if r.Chance(0.04) {
 		sc.Code = ""
+	}
+	if forceCode != "" {
+		sc.Code = forceCode
 	}
 	var n1, n2 string
 	sc.Tok, sc.TokIntended, n1 = genTok(r, prov)
@@ -820,17 +984,41 @@ func gen(w *world, r *c.Rng) group {
 			k = 4
 		}
 		g.Sequential = k > 1 && r.Chance(0.5)
+		lookCode, lookTok := -1, -1
+		if k > 1 && !g.Sequential {
+			if r.Chance(0.6) {
+				lookCode = r.Intn(len(codeLookalikes))
+			}
+			if r.Chance(0.3) {
+				lookTok = r.Intn(len(tokenLookalikes))
+			}
+		}
 		for i := 0; i < k; i++ {
 			var m scenario
 			switch {
 			case g.Sequential && i > 0:
 				m = variant(w, r, g.Cfg, i, g.Members[i-1])
 			default:
-				m = genMember(w, r, g.Cfg, i)
+				fc, fa := "", ""
+				if !g.Sequential && i < 2 {
+					if lookCode >= 0 {
+						fc = codeLookalikes[lookCode][i]
+					}
+					if lookTok >= 0 && typ != "google" {
+						fa = tokenLookalikes[lookTok][i]
+					}
+				}
+				m = genMemberWith(w, r, g.Cfg, i, fc, fa)
+				if fc != "" || fa != "" {
+					m.Note += " +look-alike code/token"
+					for t := 0; t < 4 && tokenKey(m) == ""; t++ { // two GOOD logins that look alike are the point
+						m = genMemberWith(w, r, g.Cfg, i, fc, fa)
+					}
+				}
 				if k > 1 && (g.Sequential || (i > 0 && r.Chance(0.5))) {
 					// several good logins are the interesting groups: bias towards usable answers
 					for t := 0; t < 4 && (tokenKey(m) == "" || (g.Sequential && typ != "google" && (m.UIEff.Failed || m.UIEff.Status != 200))); t++ {
-						m = genMember(w, r, g.Cfg, i)
+						m = genMemberWith(w, r, g.Cfg, i, fc, fa)
 					}
 				}
 				if g.Sequential && i == 0 && r.Chance(0.5) && m.UI.Transport == 0 {
@@ -1086,6 +1274,98 @@ func corpus() []group {
 			gs = append(gs, group{Cfg: cfg, Sequential: true, Members: []scenario{alice, mallory, refused, noflag, again},
 				Note: fmt.Sprintf("corpus: sequence on one provider object, cache headers set %d", ci)})
 		}
+	}
+	// --- long and multi-byte bodies on error answers (what gets logged) and on good ones
+	for _, cfg := range []int{0, 1, 2} {
+		for _, size := range []int{1022, 2046, 2047, 2048, 2049, 4095, 4097, 65536} {
+			for ri, ru := range []string{"\u00e9", "\u65e5", "\U0001F642"} {
+				for _, where := range []string{"token", "userinfo"} {
+					if cfgPool[cfg].Type == "google" && where == "userinfo" {
+						continue
+					}
+					status := []int{400, 401, 500, 429, 200}[(size+ri)%5]
+					body := `{"error":"invalid_grant","error_description":"` + strings.Repeat(ru, size/len(ru)+2) + `"}`
+					if (size+ri)%2 == 0 {
+						body = "<html>" + strings.Repeat(ru, size/len(ru)+2) + "</html>"
+					}
+					m := login(ri, "alice@example.com", claims("alice@example.com", `,"email_verified":true`), ui("alice@example.com", `,"email_verified":true,"username":"u"`))
+					if where == "token" {
+						m.Tok = answerSpec{Status: status, Raw: []byte(body)}
+					} else {
+						m.UI = answerSpec{Status: status, Raw: []byte(body)}
+					}
+					m.Note = fmt.Sprintf("corpus: %s answers %d with %d+ bytes of %d-byte runes", where, status, size, len(ru))
+					gs = append(gs, group{Cfg: cfg, Members: []scenario{m}})
+				}
+			}
+		}
+	}
+	// --- binary (non-UTF-8) bodies: one run of every byte class, on error answers and on 200
+	for _, cfg := range []int{0, 1, 2} {
+		for xi, x := range runBytes {
+			for _, where := range []string{"token", "userinfo"} {
+				if cfgPool[cfg].Type == "google" && where == "userinfo" {
+					continue
+				}
+				status := []int{502, 400, 200, 429, 401}[xi%5]
+				m := login(xi, "alice@example.com", claims("alice@example.com", `,"email_verified":true`), ui("alice@example.com", `,"email_verified":true,"username":"u"`))
+				if where == "token" {
+					m.Tok = answerSpec{Status: status, Raw: bytesRepeat(x, 3000)}
+				} else {
+					m.UI = answerSpec{Status: status, Raw: bytesRepeat(x, 3000)}
+				}
+				m.Note = fmt.Sprintf("corpus: %s answers %d with 3000 bytes 0x%02x", where, status, x)
+				gs = append(gs, group{Cfg: cfg, Members: []scenario{m}})
+			}
+		}
+	}
+	// --- look-alike codes / access tokens of two people logging in at once
+	for _, cfg := range []int{0, 1, 2} {
+		for li := range codeLookalikes {
+			for _, which := range []string{"code", "token"} {
+				if which == "token" && (cfgPool[cfg].Type == "google" || strings.TrimSpace(tokenLookalikes[li][0]) == strings.TrimSpace(tokenLookalikes[li][1])) {
+					continue
+				}
+				g := group{Cfg: cfg, Note: fmt.Sprintf("corpus: two people at once, look-alike %ss %q / %q", which, codeLookalikes[li][0], codeLookalikes[li][1])}
+				for i := 0; i < 2; i++ {
+					m := login(i, people[i], claims(people[i], `,"email_verified":true`), ui(people[i], `,"email_verified":true,"username":"u"`))
+					if which == "code" {
+						m.Code = codeLookalikes[li][i]
+					} else {
+						idt := claims(people[i], `,"email_verified":true`)
+						m.Tok.Raw = tokBody(&idt, tokenLookalikes[li][i])
+					}
+					g.Members = append(g.Members, m)
+				}
+				gs = append(gs, g)
+			}
+		}
+	}
+	// --- e-mail-like values in the other members the structs decode; blank and odd e-mails
+	for _, cfg := range []int{1, 2} {
+		for j, body := range []string{
+			`{"username":"mallory@evil.org"}`,
+			`{"email":"","username":"mallory@evil.org","email_verified":true}`,
+			`{"email":null,"username":"mallory@evil.org","email_verified":true}`,
+			`{"email":"","email_verified":true,"groups":["mallory@evil.org"]}`,
+			`{"email":" ","email_verified":true,"username":"u"}`,
+			`{"email":"\t","email_verified":true,"username":"u"}`,
+			`{"email":"\u212aelvin@example.com","email_verified":true,"username":"KELVIN@EXAMPLE.COM"}`,
+			`{"email":"` + strings.Repeat("l", 70000) + `@example.com","email_verified":true,"username":"u"}`,
+		} {
+			m := login(j, "alice@example.com", "h.e30.s", body)
+			n := len(body)
+			if n > 80 {
+				n = 80
+			}
+			m.Note = "corpus: userinfo " + body[:n]
+			gs = append(gs, group{Cfg: cfg, Members: []scenario{m}})
+		}
+	}
+	for j, pl := range []string{`{"username":"mallory@evil.org","email_verified":true}`, `{"email":"","sub":"mallory@evil.org","email_verified":true}`, `{"email":" ","email_verified":true}`} {
+		m := login(j, "alice@example.com", "h."+raw(pl)+".s", `{}`)
+		m.Note = "corpus: id-token payload " + pl
+		gs = append(gs, group{Cfg: 0, Members: []scenario{m}})
 	}
 	// --- response headers and framing: the unchanged code reads none of them; no answer may crash the request
 	hdrSets := [][][2]string{
